@@ -336,7 +336,24 @@ def build_inputs(rng, tier):
         inputs.append({"job": {"op": "c13.run", "entry": rng.choice(["ineq", "tree", "pre"]), "digits": 4,
                                "conds": [G.show(c)], "assumptions": []},
                        "points": [], "kind": "collision", "nontrivial": True, "fluents": None})
-    n = 360 if tier == "quick" else 3600
+    # the numeric precondition sets of the shipped domains (tests/**/*.pddl): Precondition.print and
+    # _simplify_numeric_preconditions on them (large sets are cut to their equalities plus a few inequalities:
+    # the checker's cost is quadratic in the number of conditions)
+    fx = run_impl([{"op": "c13.fixtures"}], nproc=1)[0]
+    sets = fx.get("sets", [])
+    kinds["fixture-files/parsed-domains/sets"] = [fx.get("files"), fx.get("parsed_domains"), len(sets)]
+    if tier == "quick":
+        sets = rng.sample(sets, min(12, len(sets)))
+    for st in sets:
+        conds = st["conds"]
+        if len(conds) > 6:
+            eqs = [c for c in conds if c.startswith("(= ")][:2]
+            rest = [c for c in conds if not c.startswith("(= ")]
+            conds = eqs + rng.sample(rest, min(6 - len(eqs), len(rest)))
+        for entry, d in (("pre", rng.choice([0, 1, 2, 3, 4])), ("print", rng.choice([2, 4, 6]))):
+            inputs.append({"job": {"op": "c13.run", "entry": entry, "digits": d, "conds": conds, "assumptions": []},
+                           "points": [], "kind": "fixture:%s:%s" % (st["file"], st["action"]), "nontrivial": True, "fluents": None})
+    n = len(inputs) + (340 if tier == "quick" else 3000)
     tries = 0
     while len(inputs) < n and tries < 20 * n:
         tries += 1
@@ -388,7 +405,7 @@ def run(args):
                       "input": {"job": inp["job"], "points": inp["points"], "kind": inp["kind"], "implementation": slim},
                       "nontrivial": inp["nontrivial"], "witness_of": inp.get("witness_of"),
                       "klass": classify(inp, res), "what": "e2e"})
-    glue_budget = 1200 if args.tier == "quick" else 12000
+    glue_budget = 1200 if args.tier == "quick" else 10000
     for inp, res in zip(inputs, results):
         for lit, desc, nontrivial in glue_lits(res):
             if lit in seen_glue or len(seen_glue) >= glue_budget:
@@ -423,7 +440,9 @@ def run(args):
     cov["programs"] = len(e2e)
     cov["disagreements_checked"] = sum(1 for c, v in e2e if v != ".")
     cov["glue_cases"] = {"convert": n_glue, "transform": n_trans}
+    cov["fixtures"] = kinds.pop("fixture-files/parsed-domains/sets", None)
     cov["input_distribution"] = {"%s/%s" % k: v for k, v in sorted(kinds.items())}
+    cov["input_distribution"]["fixture"] = sum(1 for i in inputs if i["kind"].startswith("fixture:"))
     cov["digits"] = {str(d): sum(1 for i in inputs if i["job"]["digits"] == d) for d in range(0, 7)}
     cov["outcomes"] = {"returned": sum(1 for r in results if "ok" in r), "raised": sum(1 for r in results if "ok" not in r),
                        "reader_rejected": sum(1 for r in results if "ok" in r and not r.get("reader_ok"))}
